@@ -80,6 +80,9 @@ def direct(env, cell, k):
 
 
 def job(j):
+    if j.get("r3"):
+        import scalartrace
+        return scalartrace.job(j)
     env = Env()
     st = {"n": 0, "viol": [], "distinct": set(), "samples": [], "cells": 0}
 
@@ -126,7 +129,9 @@ def main(argv):
                 "object; distinct_nontrivial = distinct cells x representatives other than the canonical in-kind value")
     rep.assumptions = ["numeric magnitudes are abstract token classes with finitely many concrete representatives (harness/tokens.py)",
                        "Date / Time / DateTime: two well-formed representatives each (whole seconds), malformed inputs refused", "stand-in parser"]
-    results = genrun.run_jobs("checks.c10", "job", [{"cfg": "MC_scalars.cfg"}])
+    thorough = common.tier() == "thorough"
+    r3 = [{"r3": True, "seed": common.seed() * 100 + 31 + k, "n": 2500 if thorough else 400} for k in range(8 if thorough else 4)]
+    results = genrun.run_jobs("checks.c10", "job", [{"cfg": "MC_scalars.cfg"}] + r3)
     bad = genrun.merge(rep, results)
     rc = rep.finish()
     if bad:
